@@ -21,6 +21,10 @@ CHECKS = {
    text="Every function/gate node of every generated program (flat gated/cyclic, DAGs with nested graphs to depth 2) is made the failing node (1st and 2nd invocation, and pairs), under both error_handling modes and both runners. The surfaced exception must be the very object the body raised (is), and the FAILED result's values must lie between the bounds TLC computes on the engine model (lower: everything completed before the failing step; upper: every successful sibling), the model itself being checked against HGProps!C11 as a TLC invariant.",
    note="Trusted: TLC, harness bodies, builder. map()-level error propagation is covered by C10. Interrupt handlers excluded (the code wraps their failures on purpose).",
    technique="fault enumeration over node positions; TLA+ engine model gives partial-result bounds (TLC invariant L2|=L1); spec->code differential"),
+ "C15": dict(level="model_checking", engine="HGSched",
+   text="For every shape (nesting depth <= 3, map fan-out <= 3, mapped level) and k in 1..3, TLC explores ALL interleavings of task creation, FIFO permit grants, completions and step boundaries on HGSched.tla over the plan tree derived from the engine model: invariants in-flight <= k, permit accounting, all tasks ran, deadlock freedom, and termination as a liveness property on the smaller plans; two wrong designs (permits held by graph nodes; no permits) must be caught. The real AsyncRunner is then driven by an adversarial driver that holds every body the framework lets start, with oldest/newest/random release policies and TLC-enumerated completion orders: the in-flight maximum must stay <= k at every instant, the run must terminate, and the result must equal the unlimited run.",
+   note="Trusted: TLC, the controlled driver (a body counts as executing from its call until released). Sync gate functions are atomic and not counted.",
+   technique="TLA+ schedule-level spec exhaustively model-checked by TLC (safety, deadlock, liveness, spec mutants); adversarial replay on the real async runner"),
  "C16": dict(level="model_checking", engine="HGEngine",
    text="TLC checks the engine model against HGProps!C16 (only nodes in the declared downstream cone of the entry points run; result keys within declared outputs and the effective selection; no sentinel) and trace-checks every recorded real call log against the scope monitor; the real results are compared with the model (values, executed set) and with the on_missing policy (ignore/warn once/ValueError).",
    note="Trusted: TLC, harness bodies, builder; inputs are taken from the implementation's own input spec (C08 covers the contract). Paused results are covered in C14.",
@@ -41,6 +45,10 @@ CHECKS = {
    text="Rename.tla is a transition system over rename histories (every partial injective batch whose result is duplicate-free, incl. swaps, rotations, chains through temporaries); TLC explores all histories within the bounds and checks the batch-aware reverse/forward map algorithms against the position-based semantics; EVERY explored history is replayed on FunctionNode, RouteNode, IfElseNode, InterruptNode and GraphNode (also mapped, with clone lists) and observed through the public surface and by executing the node, comparing received arguments, defaults/bound/types and result names with the model; alpha-renamed graphs are compared with the originals.",
    note="Trusted: TLC, the replay harness. Rename_gn.cfg keeps the pre-fix GraphNode algorithms as model-level evidence of the two repaired defects (expected to fail); only the replay decides the property.",
    technique="TLA+ transition system of rename histories model-checked by TLC; replay of all TLC-explored histories into the real nodes"),
+ "C07": dict(level="model_checking", engine="GraphAlgebra",
+   text="GraphAlgebra.tla models the heap of immutable graph/node objects and the ten derivation operations (plus observe/run); TLC explores all histories within the bounds and checks AppendOnly (action property), Independent, OneNew, WellFormed; every explored history is replayed on real objects through the public API in an eager mode (every live object re-observed after every step: inputs, outputs, bindings, selection, entry points, definition_hash, run result) and a lazy cold-cache mode, each object compared with its own previous observation, with the model's abstract state and with the object built from its own derivation chain alone.",
+   note="Trusted: TLC, the replay harness, a small catalogue of base graphs/nodes. Exhaustive to depth 3-4 per scenario, simulated to depth 6. Containers handed out by an object (inputs.bound dict) writing through to that same object are recorded as divergences (no derivation op involved).",
+   technique="TLA+ heap transition system model-checked by TLC; replay of all TLC-explored histories into real objects"),
  "C08": dict(level="model_checking", engine="InputSpec",
    text="InputSpec.tla states the documented contract (scope narrowing, edge cancels default, entry points per cycle, acceptance); TLC evaluates it and checks its laws (disjoint categories, bind/unbind, canonical input set accepted, every single omission rejected) on every configuration. Behaviourally, for the REPORTED spec of the real graph: required + the parameters of one listed entry point per cycle must be accepted (no missing value at run time), and omitting any single required input must raise MissingInputError before any node function, event or shutdown; bind/unbind are exercised on the real object.",
    note="Trusted: TLC, builder. Differences between reported spec and InputSpec.tla that the documentation does not settle (select narrowing through gates, parameters fed by another cycle) are recorded as divergences, never alarms. One open known finding (inputs of a node bypassed by a bound output).",
@@ -73,9 +81,10 @@ man = {
  "hooks": {"guard": "HYPERGRAPH_VERIF", "enable": "no source hooks: observation uses harness-generated node bodies, the public EventProcessor/CacheBackend APIs and a controlled asyncio driver",
            "baseline_off_cmd": "cd /repo && /venv/bin/python -m pytest -ra -q -p no:cacheprovider --timeout=900 --continue-on-collection-errors",
            "source_commits": [], "add_only": True},
- "engines": [{"name": "HGSched", "path": "spec/HGSched.tla", "serves_properties": ["C02"], "kind_free_text": "TLA+ schedule-level spec (permits, completion orders, nested frames, map items) model-checked by TLC; schedules replayed on AsyncRunner"},
+ "engines": [{"name": "HGSched", "path": "spec/HGSched.tla", "serves_properties": ["C02", "C15"], "kind_free_text": "TLA+ schedule-level spec (permits, completion orders, nested frames, map items) model-checked by TLC; schedules replayed on AsyncRunner"},
              {"name": "Rename", "path": "spec/Rename.tla", "serves_properties": ["C06"], "kind_free_text": "TLA+ transition system of rename histories, model-checked; histories replayed into real nodes"},
              {"name": "InputSpec", "path": "spec/InputSpec.tla", "serves_properties": ["C08", "C05"], "kind_free_text": "TLA+ input-contract specification evaluated by TLC (SpecEval batch)"},
+             {"name": "GraphAlgebra", "path": "spec/GraphAlgebra.tla", "serves_properties": ["C07"], "kind_free_text": "TLA+ heap of immutable objects with derivation operations, model-checked; histories replayed on real objects"},
              {"name": "Validate", "path": "spec/Validate.tla", "serves_properties": ["C19"], "kind_free_text": "TLA+ structural validity predicate + TypeCompat relation evaluated by TLC"},
              {"name": "Viz", "path": "spec/Viz.tla", "serves_properties": ["C20"], "kind_free_text": "TLA+ faithful-drawing oracle evaluated by TLC on recorded renderings"},
              {"name": "HGEngine", "path": "spec/HGEngine.tla", "serves_properties": sorted(p for p, c in CHECKS.items() if c["engine"] == "HGEngine"),
